@@ -25,7 +25,7 @@ CONSTANT K                      \* how many programs run together (2 or 3)
 Progs == JsonDeserialize("progs.json")
 N == Len(Progs)
 Procs == 1..K
-Mutexes == UNION {{Progs[i].ops[j].m : j \in 1..Len(Progs[i].ops)} : i \in 1..N}
+MutexesOf(i) == {Progs[i].ops[j].m : j \in 1..Len(Progs[i].ops)}
 
 VARIABLES chosen,   \* Procs -> program index (0: this slot stays idle)
           pc,       \* Procs -> position in its program
@@ -45,8 +45,9 @@ Init == /\ chosen \in {c \in [Procs -> 0..N] :
                           /\ \A p, q \in Procs : (c[p] # 0 /\ c[q] # 0) => Progs[c[p]].scen = Progs[c[q]].scen
                           /\ Cardinality({p \in Procs : c[p] # 0}) >= 2}
         /\ pc = [p \in Procs |-> 1]
-        /\ w = [m \in Mutexes |-> 0]
-        /\ r = [m \in Mutexes |-> [p \in Procs |-> 0]]
+        \* only the mutexes of the chosen programs are part of the state
+        /\ w = [m \in UNION {MutexesOf(chosen[p]) : p \in {q \in Procs : chosen[q] # 0}} |-> 0]
+        /\ r = [m \in UNION {MutexesOf(chosen[p]) : p \in {q \in Procs : chosen[q] # 0}} |-> [p \in Procs |-> 0]]
         /\ pend = {}
 
 NoReaders(m) == \A p \in Procs : r[m][p] = 0
@@ -83,5 +84,5 @@ AllDone == \A p \in Procs : Done(p)
 \* somebody can always move until everybody is through
 NoDeadlock == AllDone \/ ENABLED Next
 \* a program that ends holds nothing (the programs are cut where the goroutine held no lock: sanity of the extraction)
-NothingHeld == AllDone => (\A m \in Mutexes : w[m] = 0 /\ NoReaders(m))
+NothingHeld == AllDone => (\A m \in DOMAIN w : w[m] = 0 /\ NoReaders(m))
 =============================================================================
